@@ -252,6 +252,7 @@ def run(ctx):
     rep.floor('Q4', 1)
     rep.floor('Q5', 3)
     rep.floor('Q6', 2)
+    rep.floor('Q7', 3)
 
 
 # ---------------------------------------------------------------- slist
@@ -526,6 +527,13 @@ def queue(ctx):
     # ---- Q3: pool index bounds: ptr_[--cur_] only under cur_ != 0; ptr_[cur_++] only under cur_ < mem_
     q3(ctx, fns, m)
     q6(ctx, fns, m, numidx)
+    import sortguard
+    for n_, lim, what in (('a_que_push_sort', 1, 'after the count was incremented one element is already enqueued and must be compared'),
+                          ('a_que_sort_fore', 1, 'two elements may be out of order'), ('a_que_sort_back', 1, 'two elements may be out of order')):
+        if n_ in fns:
+            sortguard.check(rep, 'Q7', fns[n_], numidx, lim, what)
+        else:
+            rep.unk('Q7', n_, 'anchor vanished')
 
 
 def q6(ctx, fns, m, numidx):
